@@ -85,9 +85,9 @@ func runWorkload(name string, d time.Duration, workers []func(stop *int32, ops *
 	go func() { wg.Wait(); close(done) }()
 	select {
 	case <-done:
-		return ops, false, panics
+		return atomic.LoadInt64(&ops), false, panics
 	case <-time.After(20 * time.Second):
-		return ops, true, panics
+		return atomic.LoadInt64(&ops), true, panics
 	}
 }
 
